@@ -48,6 +48,10 @@ TF_TREES = [
     dict(shapes=[[6, 9], [3, 3, 2], [7]], block=3, merge=9, rank=2, skip_rank1=False, skip_dim_gt=4096),
     dict(shapes=[[4, 12], [8, 2], [6]], block=4, merge=8, rank=3, skip_rank1=True, skip_dim_gt=8),
     dict(shapes=[[2, 8, 4], [10], [5, 5]], block=5, merge=16, rank=2, skip_rank1=True, skip_dim_gt=4096),
+    # unit dimensions: rank >= 2 parameters with at most one non-unit axis are NOT rank-1 for the skip rule
+    # (added after a seeded change that counted rank without unit dimensions was missed)
+    dict(shapes=[[1, 6], [6, 1], [1, 3, 1], [1, 3, 2]], block=4, merge=8, rank=2, skip_rank1=True,
+         skip_dim_gt=4096),
 ]
 BETAS = [0.5, 0.75, 1.0]
 DEPS = [2.0 ** -10, 2.0 ** -20]
